@@ -114,9 +114,10 @@ def oracle(case):
 def big_case(seed, i, engine):
     """a partition with more than rangeStreamBatch (300) live keys: full batches are flushed from append()"""
     r = rng_for(seed, "c13big/%d" % i)
-    n = r.choice([299, 301, 650])
+    # (keys, border index): one worker must see >= 300 live keys for a full batch to be flushed from append()
+    n, bi = [(650, 20), (301, 300), (650, 325), (299, 150)][i % 4]
     pfx = PREFIX + b"/big/"
-    border = enc(pfx + (b"%05d" % r.randint(1, n - 1)), r.choice([0, 0, hist.INIT + 5]))
+    border = enc(pfx + (b"%05d" % bi), r.choice([0, 0, hist.INIT + 5]))
     lines = [hist.cfg_line(engine, splits=hx(border)), "bulk %d %s %s" % (n, hx(pfx), hx(b"v")), "rev"]
     a, b = PREFIX + b"/", PREFIX + b"0"
     for R in (0, hist.INIT + n, hist.INIT + n // 2):
@@ -134,7 +135,7 @@ def check(rep, tier, seed):
             cases.append(gen_case(seed, i, "tikv", True))        # real mock-cluster region splits
         else:
             cases.append(gen_case(seed, i, ["memkv", "badger", "tikv"][m - 1], False))  # injected, shuffled
-    cases += [big_case(seed, i, ["memkv", "tikv", "badger"][i % 3]) for i in range(3 if tier == "quick" else 12)]
+    cases += [big_case(seed, i, ["memkv", "tikv", "badger"][i % 3]) for i in range(4 if tier == "quick" else 12)]
     core.run_cases(cases)
     for c in cases:
         rep.count_case(c)
